@@ -10,7 +10,7 @@
 From Larking Require Import Base.GoSem Model.Lexer Model.Trie Model.Match Spec.Grammar Spec.Route
   Spec.Template
   Proofs.LexerProofs Proofs.MatchProofs Proofs.TrieProofs Proofs.RoutingProofs Proofs.OrderProofs Proofs.AcceptProofs
-  Proofs.TemplateInstProofs.
+  Proofs.TemplateInstProofs Proofs.LeastProofs.
 From Coq Require Import Permutation.
 Local Open Scope N_scope.
 
@@ -121,6 +121,86 @@ Proof.
   exact (build_InvX isLetter isNumber resolves body_ok resp_ok l [] empty_node r (InvX_empty isLetter isNumber resolves) HD HB).
 Qed.
 Print Assumptions C02_content_exact.
+
+(* precedence in full: the router is CHARACTERISED. Among the candidates of a request -- (edge path, node, captures,
+   binding) with the path leading to the node, covering the request's tokens with those captures, and the node offering
+   a binding to the verb -- the answer is the one at the LEAST edge path in the lexicographic order in which a literal
+   edge precedes every variable edge and variable edges are ordered by the text of their pattern; when there is no
+   candidate the answer is an error. The premise is the property's own: every candidate's captures convert. *)
+Theorem C02_least_edge_path :
+  forall isLetter isNumber resolves okconv L root verb p,
+  Inv isLetter isNumber resolves L root ->
+  (forall toks, lex_path isLetter isNumber (normalise p) = Ok toks -> ConvAll okconv verb root toks) ->
+  match route okconv isLetter isNumber root verb p with
+  | Ok (m, ps) => exists toks es nd, lex_path isLetter isNumber (normalise p) = Ok toks /\ Least verb root toks es nd ps m
+  | Err _ => forall toks es nd caps m, lex_path isLetter isNumber (normalise p) = Ok toks -> ~ Cand verb root toks es nd caps m
+  | _ => False
+  end.
+Proof. exact route_is_least. Qed.
+Print Assumptions C02_least_edge_path.
+
+(* ... and conversely: the least candidate is what the router answers, with its captures *)
+Theorem C02_least_is_served :
+  forall isLetter isNumber resolves okconv L root verb p toks es nd caps m,
+  Inv isLetter isNumber resolves L root -> lex_path isLetter isNumber (normalise p) = Ok toks ->
+  ConvAll okconv verb root toks -> Least verb root toks es nd caps m ->
+  route okconv isLetter isNumber root verb p = Ok (m, caps).
+Proof. exact route_least_served. Qed.
+Print Assumptions C02_least_is_served.
+
+(* "the literal one wins", in the property's words: if some candidate spells a position literally where other
+   paths (same edges before) have a variable, the answer does not go through such a variable *)
+Theorem C02_literal_beats_variable :
+  forall okconv fuel verb root k toks m ps pre key s1 nd1 caps1 m1,
+  TrieInv root k -> SortedBelow root -> (length toks < fuel)%nat -> ConvAll okconv verb root toks ->
+  search okconv fuel verb root toks = Ok (m, ps) ->
+  Cand verb root toks (pre ++ ELit key :: s1) nd1 caps1 m1 ->
+  exists es nd, Least verb root toks es nd ps m /\ forall p s2, es <> pre ++ EVar p :: s2.
+Proof. exact literal_beats_variable. Qed.
+Print Assumptions C02_literal_beats_variable.
+
+(* the answer is a function of the SET of candidates: two tries -- built in whatever order -- that offer the same
+   candidates to a request give the same outcome, error class included (a second route to order independence) *)
+Theorem C02_answer_determined_by_candidates :
+  forall okconv fuel1 fuel2 verb root1 root2 k1 k2 toks,
+  TrieInv root1 k1 -> SortedBelow root1 -> (length toks < fuel1)%nat -> ConvAll okconv verb root1 toks ->
+  TrieInv root2 k2 -> SortedBelow root2 -> (length toks < fuel2)%nat -> ConvAll okconv verb root2 toks ->
+  (forall es caps m, (exists nd, Cand verb root1 toks es nd caps m) <-> (exists nd, Cand verb root2 toks es nd caps m)) ->
+  search okconv fuel1 verb root1 toks = search okconv fuel2 verb root2 toks.
+Proof. exact least_is_order_independent. Qed.
+Print Assumptions C02_answer_determined_by_candidates.
+
+(* what holds WITHOUT the premise on conversions: the answer is a convertible candidate, and any candidate before it
+   in the order is explained by a candidate before the answer whose captures do not convert *)
+Theorem C02_least_edge_path_partial :
+  forall isLetter isNumber resolves okconv L root verb p m ps,
+  Inv isLetter isNumber resolves L root -> route okconv isLetter isNumber root verb p = Ok (m, ps) ->
+  exists toks es nd, lex_path isLetter isNumber (normalise p) = Ok toks /\
+    Cand verb root toks es nd ps m /\ conv_ok okconv m ps = true /\
+    forall es' nd' caps' m', Cand verb root toks es' nd' caps' m' ->
+      es = es' \/ path_lt es es' \/
+      (path_lt es' es /\ exists esb ndb capsb mb,
+          Cand verb root toks esb ndb capsb mb /\ conv_ok okconv mb capsb = false /\ path_lt esb es).
+Proof. exact route_least_partial. Qed.
+Print Assumptions C02_least_edge_path_partial.
+
+(* ... and that the premise is needed: with rules GET /aa/{x}/cc (x converts from digits only), GET /aa/{y=**} and
+   GET /{w}/{v}/cc, the request GET /aa/zz/cc is answered by /{w}/{v}/cc although /aa/{y=**} covers it, converts, and
+   spells "aa" literally -- the candidate through /aa/{x}/cc does not convert, and a failed conversion below a literal
+   ends the search of that literal's subtree. The property excludes such requests ("every matching rule's captures
+   convertible"); the statement without the premise is refuted on the model (LeastProofs.Instances), see design/C02.md *)
+Theorem C02_least_edge_path_without_premise_refuted :
+  let I := Instances.rootABC in
+  (exists L, Inv Instances.asciiL Instances.asciiN Instances.all_ok L I) /\
+  lex_path Instances.asciiL Instances.asciiN (normalise Instances.reqx) = Ok Instances.toksx /\
+  route Instances.okx Instances.asciiL Instances.asciiN I Instances.GET Instances.reqx = Ok (Instances.infoC, [[122;122]; [97;97]]) /\
+  (exists nd, Cand Instances.GET I Instances.toksx Instances.pathC nd [[122;122]; [97;97]] Instances.infoC) /\
+  (exists nd, Cand Instances.GET I Instances.toksx Instances.pathB nd [[122;122;47;99;99]] Instances.infoB) /\
+  conv_ok Instances.okx Instances.infoB [[122;122;47;99;99]] = true /\
+  path_lt Instances.pathB Instances.pathC /\
+  ~ (exists es nd, Least Instances.GET I Instances.toksx es nd [[122;122]; [97;97]] Instances.infoC).
+Proof. exact Instances.least_edge_path_refuted. Qed.
+Print Assumptions C02_least_edge_path_without_premise_refuted.
 
 (* ---- instance: precedence on a concrete trie ---- *)
 Definition asciiL (r : N) : bool := ((65 <=? r) && (r <=? 90)) || ((97 <=? r) && (r <=? 122)).
